@@ -348,7 +348,9 @@ Definition expired_ixs_x (ixs : list xindex) (infos : list sinfo) (pt now : Z) :
 
 Record xlog := { l_shards : list Z; l_ixs : list Z }.
 
-Definition xtick (rep : bool) (w : xworld) (pt now : Z) : xworld * xlog :=
+(* The service reads the clock anew for every decision; the shard decisions of a pass come first, the index decisions
+   later: `now` is the reading of the former, `now2` (>= now in reality) of the latter. *)
+Definition xtick (rep : bool) (w : xworld) (pt now now2 : Z) : xworld * xlog :=
   let c := x_cat w in
   let sinf := shard_infos c pt in
   let iinf := index_infos c pt in
@@ -357,7 +359,7 @@ Definition xtick (rep : bool) (w : xworld) (pt now : Z) : xworld * xlog :=
   let vs := expired_shards_x shs1 sinf pt now in
   let c1 := fold_left (fun c' v => prune_sg rep (del_sg c' (v_rp v) (v_gid v)) (v_id v)) vs c in
   let shs2 := filter (fun s => negb (existsb (fun v => v_id v =? xs_id s) vs)) shs1 in
-  let vi := expired_ixs_x ixs1 iinf pt now in
+  let vi := expired_ixs_x ixs1 iinf pt now2 in
   let c2 := fold_left (fun c' v => prune_ig rep (del_ig c' (v_rp v) (v_gid v)) (v_id v)) vi c1 in
   let ixs2 := filter (fun i => negb ((xi_pt i =? pt) && existsb (fun v => v_id v =? xi_id i) vi)) ixs1 in
   ({| x_cat := c2; x_shards := shs2; x_ixs := ixs2 |}, {| l_shards := map v_id vs; l_ixs := map v_id vi |}).
@@ -376,7 +378,7 @@ Inductive xevent :=
 | XMat (gid : Z) (loaded : bool)            (* the stores create the group's shards and indexes *)
 | XAlter (rp : Z) (d sgd igd : option Z)    (* ALTER RETENTION POLICY .. DURATION / SHARD DURATION / INDEX DURATION *)
 | XExpand                                   (* a partition is added: ExpandGroups *)
-| XTick (pt now : Z)
+| XTick (pt now now2 : Z)
 | XTickAborted (pt now : Z)
 | XRestart (pt : Z).
 
@@ -390,7 +392,7 @@ Definition xstep (repI repP : bool) (w : xworld) (e : xevent) : xworld * xlog :=
   | XMat gid l => (materialise w gid l, nolog)
   | XAlter rp d sgd igd => (match alter_cat (x_cat w) rp d sgd igd with Some c => with_cat w c | None => w end, nolog)
   | XExpand => (with_cat w (expand repI (x_cat w)), nolog)
-  | XTick pt now => xtick repP w pt now
+  | XTick pt now now2 => xtick repP w pt now now2
   | XTickAborted _ _ => (w, nolog)
   | XRestart pt => (xrestart w pt, nolog)
   end.
